@@ -89,11 +89,11 @@ def engine(ctx):
         except Exception:
             pass
     t0 = time.time()
-    n = ctx.n(80, 1200)
+    n = ctx.n(80, 400)
     base = ctx.seed * 100000
     cases = [gfi_run.make_case(base + s, depth=(2 if s % 3 else 3)) for s in range(n)]
     # malformed stream (C22): static bodies that trace one address twice
-    ndup = ctx.n(6, 60)
+    ndup = ctx.n(6, 30)
     k = 0
     while sum(1 for c in cases if c["flavour"] == "dup") < ndup and k < 40 * ndup:
         c = gfi_run.make_case(base + 50000 + k, depth=2, flavour="dup")
@@ -192,7 +192,7 @@ def py_ref(p, look, args, pre=()):
                 break
         terms, rets = [], []
         for i in range(n):
-            sl = [(v if ax is None else v[i]) for ax, v in zip(axes, args)]
+            sl = [(v if ax is None else ([row[i] for row in v] if ax == 1 else v[i])) for ax, v in zip(axes, args)]
             t, r = py_ref(p[2], look, sl, tuple(pre) + (("i", i),))
             terms += t
             rets.append(r)
@@ -371,9 +371,12 @@ ORACLES = {"C01": oracle_C01, "C02": oracle_C02, "C03": oracle_C03, "C10": oracl
 
 
 # ---------------- edits ----------------
-def edits_of(out, kinds=None):
+def edits_of(out, kinds=None, weights=False):
+    """successful edit steps; weights=True leaves out the index-changing switch edits (their weight is K19)"""
     for s in out["steps"]:
         if s["kind"] == "edit" and s["res"][0] == "ok" and (kinds is None or s["req"][0] in kinds):
+            if weights and s.get("noship") and s["args"][:1] != s["old_args"][:1]:
+                continue
             yield s
 
 
@@ -396,7 +399,7 @@ def oracle_C05(case, out):
     """Update: constrained addresses take the constraint, the others keep their value, weight = score change,
     the backward request holds the previous values at the overwritten addresses and nothing else"""
     bad = []
-    for s in edits_of(out, ("update",)):
+    for s in edits_of(out, ("update",), weights=True):
         new, old, w, bwd = s["res"][1]["trace"], s["old_obs"], s["res"][1]["weight"], s["res"][1]["bwd"]
         cons = req_constraints(s["req"])
         ln, lo = look_dict(new), look_dict(old)
@@ -538,6 +541,8 @@ def oracle_C22(case, out):
                 bad.append(("a visited address has no value in the trace's choice map", {"addr": [list(c) for c in e.args[0]]}))
             except (Unsupported, TypeError, IndexError):
                 pass
+        if case.get("zero_len") and s["kind"] in ("assess_partial", "assess_full"):
+            continue        # a zero-length vector site records no choice: assess reports it missing (known finding K16)
         if s["kind"] == "assess_partial":
             # the dropped site's addresses are visited: MissingAddress expected (unless the site makes no choice)
             dropped = [("s", x) for x in s["dropped"]]
